@@ -25,8 +25,35 @@ type SolverCfg struct {
 func (o *Obligation) script() string {
 	b := o.bank
 	var hyps []*Term
+	// axioms are only relevant if one of their uninterpreted functions occurs
+	// in the obligation itself (dropping an axiom is sound)
+	memo0 := map[*Term]map[string]bool{}
+	used := map[string]bool{}
+	for _, h := range o.Hyps {
+		for k := range symbolsOf(h, memo0) {
+			used[k] = true
+		}
+	}
+	if o.Goal != nil {
+		for k := range symbolsOf(o.Goal, memo0) {
+			used[k] = true
+		}
+	}
 	for _, a := range o.axioms {
-		if !a.IsTrue() {
+		if a.IsTrue() {
+			continue
+		}
+		rel := false
+		nUF := 0
+		for k := range symbolsOf(a, memo0) {
+			if strings.HasPrefix(k, "@") {
+				nUF++
+				if used[k] {
+					rel = true
+				}
+			}
+		}
+		if rel || nUF == 0 {
 			hyps = append(hyps, a)
 		}
 	}
